@@ -226,8 +226,13 @@ class Project(object):
             # the text has no file: it belongs to no package
             raise ImportError('Not a package: {} ({})'.format(filename, package))
 
-        root = filename
+        # a source root is where top-level names live: it is not a package
+        # of its own even if it holds an __init__.py or lies in a package
+        tops = set(os.path.abspath(p) for p in self.sources)
+        root = os.path.abspath(filename)
         for _ in range(len(package) - len(package.lstrip('.'))):
+            if root in tops:
+                raise ImportError('Beyond top-level package: {} ({})'.format(filename, package))
             root = os.path.dirname(root)
 
         key = root
@@ -235,9 +240,6 @@ class Project(object):
             parts = self._norm_cache[key]
         except KeyError:
             parts = []
-            # a source root is where top-level names live: it is not a
-            # package of its own even if it holds an __init__.py
-            tops = set(os.path.abspath(p) for p in self.sources)
             while True:
                 if (os.path.abspath(root) not in tops and
                         os.path.exists(os.path.join(root, '__init__.py'))):
